@@ -172,3 +172,13 @@ Definition root_ModelRun : root_desc := Root cModelRun [Conv 0; Snap cClipPredic
 Definition root_Evaluation : root_desc := Root cEvaluation [Conv 0; Snap cClipAnnotation; Snap cClipEvaluation; Snap cClipPrediction; Snap cClip; Snap cMatch; Snap cRecording; Snap cSequenceAnnotation; Snap cSequencePrediction; Snap cSequence; Snap cSoundEventAnnotation; Snap cSoundEventPrediction; Snap cSoundEvent; Snap cTag; Snap cUser; Snap cNote; Snap cPredictedTag; Snap cStatusBadge] [cUser; cTag; cNote; cPredictedTag; cStatusBadge; cRecording; cSoundEvent; cSequence; cClip; cSoundEventAnnotation; cSequenceAnnotation; cClipAnnotation; cSoundEventPrediction; cSequencePrediction; cClipPrediction; cMatch; cClipEvaluation].
 
 Definition roots : list root_desc := [root_RecordingSet; root_Dataset; root_AnnotationSet; root_AnnotationProject; root_EvaluationSet; root_PredictionSet; root_ModelRun; root_Evaluation].
+
+Definition adapters_order : list cls := [cEvaluation; cDataset; cAnnotationProject; cEvaluationSet; cModelRun; cAnnotationSet; cPredictionSet; cRecordingSet].
+Definition collection_parent (c : cls) : option cls :=
+  match c with
+  | 19 => Some cRecordingSet
+  | 21 => Some cAnnotationSet
+  | 22 => Some cAnnotationSet
+  | 24 => Some cPredictionSet
+  | _ => None
+  end.
